@@ -1676,8 +1676,15 @@ class Kconfig(object):
                     )
 
                 for sym, val in choice_selections:
+                    # Symbol.set_value() rewrites the baseline (_sdkconfig_value/_loaded_as_default) of the other members,
+                    # which is right for an interactive selection but not here: the baseline is what THIS file says, and
+                    # a member the file does not mention (e.g. one whose prompt is currently hidden) has none.
+                    baselines = [(s, s._sdkconfig_value, s._loaded_as_default) for s in choice.syms if s is not sym]
                     self.set_value_and_source(sym, val, filename)
                     if is_main_sdkconfig:
+                        for s, s_val, s_default in baselines:
+                            s._sdkconfig_value = s_val
+                            s._loaded_as_default = s_default
                         sym._sdkconfig_value = val
                         sym._loaded_as_default = False
                     sym.present_in_current_sdkconfig = True
